@@ -82,8 +82,12 @@ impl<T: Debug + Clone + Ord + 'static> BooleanFunction<T> for Expression<T> {
     }
 
     fn derivative(&self, variables: BTreeSet<T>) -> Self {
-        self.restrict(&btreeset_to_valuation(variables.clone(), false))
-            ^ self.restrict(&btreeset_to_valuation(variables, true))
+        // eliminate the variables one at a time: F := F[v=0] ^ F[v=1]
+        variables.into_iter().fold(self.clone(), |acc, variable| {
+            let variable = BTreeSet::from([variable]);
+            acc.restrict(&btreeset_to_valuation(variable.clone(), false))
+                ^ acc.restrict(&btreeset_to_valuation(variable, true))
+        })
     }
 
     fn is_equivalent(&self, other: &Self) -> bool {
